@@ -1,14 +1,14 @@
 package checks
 
 import (
-	"verifh/fakenet"
-	"sync/atomic"
-	"sync"
 	"fmt"
 	"math/rand/v2"
 	"strings"
+	"sync"
+	"sync/atomic"
 	"testing"
 	"time"
+	"verifh/fakenet"
 
 	"github.com/zishang520/engine.io/v2/config"
 	"github.com/zishang520/engine.io/v2/engine"
@@ -286,7 +286,7 @@ func runC11(c c11Case, rng *rand.Rand, r *rep.Report) (key, msg string, stats ma
 				}
 				rig.Wait()
 				if sock.ReadyState() != "open" {
-					key, msg = "c11-session-closed:"+closeReason(), "a conformant polling history closed the session: " + closeReason() + "; client: " + cl.Ended()
+					key, msg = "c11-session-closed:"+closeReason(), "a conformant polling history closed the session: "+closeReason()+"; client: "+cl.Ended()
 					return
 				}
 				stats["mix_histories"]++
